@@ -20,6 +20,10 @@ except ImportError:                                   # pragma: no cover
 EOF = 'EOF'
 
 
+WORD_ITEM = (sre_c.IN, [(sre_c.CATEGORY, sre_c.CATEGORY_WORD)])
+WORD_KEY = ('in', ((str(sre_c.CATEGORY), sre_c.CATEGORY_WORD),))
+
+
 class Unsupported(Exception):
     pass
 
@@ -102,6 +106,9 @@ class Lexer:
                     self._collect(list(a))
             elif op in (sre_c.MAX_REPEAT, sre_c.MIN_REPEAT):
                 self._collect(list(av[2]))
+            elif op is sre_c.AT and av in (sre_c.AT_BOUNDARY, sre_c.AT_NON_BOUNDARY):
+                # \b / \B: the partition must separate word characters from the others
+                self.atoms.setdefault(WORD_KEY, WORD_ITEM)
             else:
                 raise Unsupported("regex construct %s" % (op,))
 
@@ -282,6 +289,23 @@ class TextChart:
             elif op in (sre_c.MAX_REPEAT, sre_c.MIN_REPEAT):
                 lo, hi, body = av[0], av[1], tuple(av[2])
                 r = self.repeat(op is sre_c.MAX_REPEAT, lo, hi, body, rest, pos, 0)
+            elif op is sre_c.AT and av in (sre_c.AT_BOUNDARY, sre_c.AT_NON_BOUNDARY):
+                words = self.lx.member[WORD_KEY]
+                wp = self.in_classes(pos - 1, words) if pos > 0 else None
+                wn = self.in_classes(pos, words)
+                tz = lambda x: z3.BoolVal(False) if x is None else (z3.BoolVal(True) if x is True else x)
+                c = z3.Xor(tz(wp), tz(wn))
+                if av is sre_c.AT_NON_BOUNDARY:
+                    c = z3.Not(c)
+                c = z3.simplify(c)
+                if z3.is_false(c):
+                    r = []
+                else:
+                    c = True if z3.is_true(c) else c
+                    for e, c2 in self.match(rest, pos):
+                        x = self.and_(c, c2)
+                        if x is not None:
+                            r.append((e, x))
             else:
                 raise Unsupported(str(op))
         if len(r) > 24:
